@@ -26,6 +26,21 @@ pub(crate) fn r1_recover_model(signature: &Bytes64, message: &Message) -> Result
     }
 }
 
+pub(crate) fn k1_recover_model(signature: &fuel_crypto::Signature, message: &Message) -> Result<fuel_crypto::PublicKey, CErr> {
+    unsafe {
+        R1_CALLS += 1;
+        let sb: &[u8] = signature.as_ref();
+        let mut i = 0;
+        while i < 64 { R1_SEEN_SIG[i] = sb[i]; i += 1; }
+        R1_SEEN_MSG = **message;
+        if R1_OK {
+            let mut pk = fuel_crypto::PublicKey::default();
+            pk.as_mut().copy_from_slice(&R1_KEY);
+            Ok(pk)
+        } else { Err(CErr::InvalidSignature) }
+    }
+}
+
 static mut ED_OK: bool = false;
 static mut ED_SEEN_KEY: [u8; 32] = [0; 32];
 static mut ED_SEEN_SIG: [u8; 64] = [0; 64];
@@ -66,20 +81,21 @@ fn rd<const N: usize>(m: &MemoryInstance, a: usize) -> [u8; N] {
 macro_rules! ch {
     ($name:ident, $body:block) => {
         #[kani::proof]
-        #[kani::unwind(70)]
+        #[kani::unwind(210)]
         #[kani::stub(crate::constraints::reg_key::split_registers, split_registers_model)]
         #[kani::stub(core::result::Result::expect, expect_model)]
         #[kani::stub(core::result::Result::unwrap, unwrap_model)]
         #[kani::stub(fuel_crypto::secp256r1::recover, r1_recover_model)]
+        #[kani::stub(fuel_crypto::Signature::recover, k1_recover_model)]
         #[kani::stub(fuel_crypto::ed25519::verify, ed_verify_model)]
         pub fn $name() $body
     };
 }
 
-ch!(c17_ecr1, {
+fn recover_case(k1: bool) {
     let (mut regs, mem) = any_mem_regs();
     let gas = any_gas_costs();
-    let cost = gas.ecr1;
+    let cost = if k1 { gas.eck1 } else { gas.ecr1 };
     let (a, b, c): (Word, Word, Word) = (kani::any(), kani::any(), kani::any());
     regs[0x10] = a; regs[0x11] = b; regs[0x12] = c;
     let probe: usize = kani::any();
@@ -94,7 +110,7 @@ ch!(c17_ecr1, {
     let write_key = access_spec(&regs, LS, a as u128, 64, true);
     let (sig0, msg0): ([u8; 64], [u8; 32]) = if read_sig.is_none() && read_msg.is_none() { (rd(&mem, b as usize), rd(&mem, c as usize)) } else { ([0; 64], [0; 32]) };
     let mut vm = mk_vm(regs, mem, gas);
-    let res = op::ECR1::new(rid(0x10), rid(0x11), rid(0x12)).execute(&mut vm);
+    let res = if k1 { op::ECK1::new(rid(0x10), rid(0x11), rid(0x12)).execute(&mut vm) } else { op::ECR1::new(rid(0x10), rid(0x11), rid(0x12)).execute(&mut vm) };
     if let Some(mut exp) = charge(&regs, &vm.registers, &res, cost, probe) {
         let refuse = read_sig.or(read_msg).or(write_key);
         match refuse {
@@ -125,7 +141,9 @@ ch!(c17_ecr1, {
         }
     }
     core::mem::forget(vm);
-});
+}
+ch!(c17_ecr1, { recover_case(false) });
+ch!(c17_eck1, { recover_case(true) });
 
 ch!(c17_ed19, {
     let (mut regs, mem) = any_mem_regs();
